@@ -52,34 +52,35 @@ type Config struct {
 type EventKind int
 
 const (
-	EvBranch     EventKind = iota // a branch on a non-constant condition
-	EvIndex                       // an index / slice bound with a non-constant operand
-	EvStore                       // a store (only when RecordStores)
-	EvCall                        // a call (module or external), with arguments
-	EvUnmodelled                  // a call without model: results unknown
-	EvIndexOOB                    // constant index out of range
-	EvVarTime                     // division / modulo / variable shift
-	EvWiden                       // a loop was widened
-	EvPanic                       // a reachable panic
-	EvGlobalStore                 // store into memory reachable from a package-level variable
-	EvBound                       // a run-time bounds check whose operands are not both constants: Term (<|<=) Bound must hold
+	EvBranch      EventKind = iota // a branch on a non-constant condition
+	EvIndex                        // an index / slice bound with a non-constant operand
+	EvStore                        // a store (only when RecordStores)
+	EvCall                         // a call (module or external), with arguments
+	EvUnmodelled                   // a call without model: results unknown
+	EvIndexOOB                     // constant index out of range
+	EvVarTime                      // division / modulo / variable shift
+	EvWiden                        // a loop was widened
+	EvPanic                        // a reachable panic
+	EvGlobalStore                  // store into memory reachable from a package-level variable
+	EvBound                        // a run-time bounds check whose operands are not both constants: Term (<|<=) Bound must hold
 )
 
 // Event is one observation.
 type Event struct {
-	Kind   EventKind
-	Pos    token.Pos
-	Fn     *ssa.Function
-	Stack  []string
-	Term   *sym.Term
-	Ptr    *Ptr
-	Val    Val
-	Msg    string
-	Callee string
-	Args   []Val
-	Guard  []Lit
-	Bound  *sym.Term // EvBound: right-hand side
-	Strict bool      // EvBound: Term < Bound (else Term <= Bound)
+	Kind     EventKind
+	Pos      token.Pos
+	Fn       *ssa.Function
+	Stack    []string
+	Term     *sym.Term
+	Ptr      *Ptr
+	Val      Val
+	Msg      string
+	Callee   string
+	Args     []Val
+	Guard    []Lit
+	ArgTaint uint64    // EvCall / EvUnmodelled: taint of everything reachable from the arguments
+	Bound    *sym.Term // EvBound: right-hand side
+	Strict   bool      // EvBound: Term < Bound (else Term <= Bound)
 }
 
 // Exit is a return or panic of the analysed entry function.
